@@ -2,5 +2,5 @@
 # seedwave.sh <ID> <tag> <pkgdir> : verify /tmp/seed3-<tag>, run check <ID>, and every patch-*-only.diff variant
 ID=$1; TAG=$2; PKG=$3
 SUF=${TAG#c??}
-tools/seedcheck.sh $ID /tmp/seed${WAVE:-3}-$TAG /tmp/seedout${WAVE:-3}/$TAG $PKG $SUF $ID 2>&1 | grep -v "^ok\|^?\|^FAIL\|^---\|^\s*$" | cut -c1-230 | tail -7
+tools/seedcheck.sh $ID /tmp/seed${WAVE:-3}-$TAG /tmp/seedout${WAVE:-3}/$TAG $PKG $SUF $ID 2>&1 | cut -c1-230 | tail -40
 for v in /tmp/seedout${WAVE:-3}/$TAG/patch-*-only.diff; do [ -f "$v" ] || continue; echo "== variant $(basename $v)"; tools/variant.sh /tmp/seed${WAVE:-3}-$TAG $v $ID | tail -3 | cut -c1-230; cp $v /verif/seeded/$ID$SUF/; done
